@@ -424,17 +424,51 @@ def setup(vc):
 
 
 def replay(vc, path):
+    """Re-run the input of a finding file against /repo's current working tree and print what the real code does now
+    (the replayer's result line and the observation).  Exit code 0: replayed; 2: this kind of finding cannot be re-run."""
     flag = json.load(open(path))
     vh = vc.build_vh()
-    fam = flag.get("family") or json.loads(json.dumps(flag["case"])).get("fam")
-    lines = []
-    if flag.get("header"):
-        lines.append("@@" + json.dumps(flag["header"]))
-    lines.append("@@" + json.dumps(flag["case"]))
-    r = subprocess.run([vh, fam.replace("-h", ""), "-props", flag["prop"], "-gamma", str(flag.get("gamma", 0))],
-                       input="\n".join(lines) + "\n", capture_output=True, text=True)
-    print(r.stdout[-4000:])
-    return 0
+    case = dict(flag.get("case") or {})
+    fam = {"packrec": "pack", "preprec": "prep", "addrrec": "addr", "bundlerec": "bundle", "buildergen": "builder"}.get(flag.get("family"), flag.get("family") or case.get("fam"))
+    if fam == "trace":
+        print("recorded trace (events are in the finding file under case.events); re-record with: vh unpackrec")
+        print(json.dumps(case)[:4000])
+        return 2
+    if fam == "addr" and "case" in case and "fam" not in case:
+        case = dict(case["case"])            # an observation of the address family wraps its case
+    if fam == "bundle" and "case" in case and "fam" not in case:
+        case = dict(case["case"])
+        if case.get("raw_b64"):
+            import base64
+            case["raw"] = base64.b64decode(case.pop("raw_b64")).decode("utf-8", "replace")
+    case.setdefault("fam", fam)
+    scratch = vc.scratch_dir()
+    try:
+        lines = []
+        if fam == "unpack":
+            # the arena header the unpack replayer needs is a constant of the model: let TLC print it
+            ov = {"MaxLen": "0", "Emit": "TRUE"}
+            if flag.get("stage") in ("allowabs", "allowrel"):
+                ov["Allow"] = "<- MCAllowW"
+            cfg = vc.write_cfg(scratch, "replay-hdr.cfg", "MC_Unpack_q.cfg", ov)
+            r = subprocess.run(vc.tlc_cmd("MC_Unpack", cfg, scratch, workers=1, timeout=120), cwd=scratch, capture_output=True, text=True)
+            lines += [l for l in r.stdout.splitlines() if l.startswith('"@@') and "unpack-h" in l]
+        lines.append("@@" + json.dumps(case))
+        mis = os.path.join(scratch, "replay-mismatch.ndjson")
+        args = [vh, fam, "-props", flag["prop"], "-gamma", str(flag.get("gamma", 0)), "-mismatch", mis]
+        if flag.get("stage") == "allowrel":
+            args += ["-mode", "allowrel"]
+        if flag.get("stage") in ("unpriv3", "unprivsim"):
+            args += ["-mode", "unpriv"]
+        r = subprocess.run(args, input="\n".join(lines) + "\n", capture_output=True, text=True, cwd=scratch)
+        print(r.stdout[-3000:])
+        if os.path.exists(mis):
+            print("observation now:")
+            print(open(mis).read()[:6000])
+        print("witness recorded in the finding:", json.dumps(flag.get("witness"))[:1000])
+        return 0
+    finally:
+        shutil.rmtree(scratch, ignore_errors=True)
 
 
 def check(vc, prop, tier, seed, t0):
